@@ -27,7 +27,7 @@ DEPTH = {"quick": 5, "thorough": 7}
 FRAMES = [(), ("t",), ("b",), ("t", "t"), ("t", "b"), ("b", "t"), ("b", "b")]
 FAULTS = [None, 0, 1, 2]
 OPS = ["accept", "accept_sub", "receive", "receive_text", "receive_bytes", "iter_text", "iter_bytes", "send_text", "send_bytes", "close", "close_1001",
-       "raw_accept", "raw_send", "raw_close", "raw_http", "state"]
+       "raw_accept", "raw_send", "raw_close", "raw_close_nocode", "raw_http", "state"]
 
 
 def script_messages(frames):
@@ -111,6 +111,8 @@ class World:
             except BaseException as e:  # noqa
                 out = ("raise", type(e).__name__)
         self.states.append((ws.client_state.value, ws.application_state.value))
+        if op in ("close", "close_1001") and out[0] == "raise" and self.api["closed"] and not self.faulted_in_op:
+            self.problems.append(f"{op} raised {out[1]} although the application had already closed the connection (close is idempotent)")
         fw = len(self.forwarded) - before_fw
         # the application-side contract, independent of what reached the server
         sends = ("send_text", "send_bytes", "raw_send")
@@ -123,11 +125,11 @@ class World:
                 self.problems.append(f"{op} succeeded a second time / after close")
             if op in ("accept", "accept_sub", "raw_accept"):
                 self.api["accepted"] = True
-            if op in ("close", "close_1001", "raw_close"):
+            if op in ("close", "close_1001", "raw_close", "raw_close_nocode"):
                 self.api["closed"] = True
                 if ws.application_state.value != 3:
                     self.problems.append(f"after {op} returned, application_state is {ws.application_state.name}")
-        elif self.faulted_in_op and op in ("close", "close_1001", "raw_close"):
+        elif self.faulted_in_op and op in ("close", "close_1001", "raw_close", "raw_close_nocode"):
             self.api["closed"] = True  # the close event did reach the server
         elif self.faulted_in_op and op in ("accept", "accept_sub", "raw_accept"):
             self.api["accepted"] = True  # the accept event did reach the server
@@ -184,6 +186,8 @@ class World:
             return ws.send({"type": "websocket.send", "text": "raw"})
         if op == "raw_close":
             return ws.send({"type": "websocket.close", "code": 1000})
+        if op == "raw_close_nocode":
+            return ws.send({"type": "websocket.close"})  # code and reason are optional
         if op == "raw_http":
             return ws.send({"type": "http.response.start", "status": 200, "headers": []})
         raise KeyError(op)
@@ -322,6 +326,8 @@ CONC_GATED = [
     (("accept", "send_text"), ("close",)),
     (("accept",), ("close", "send_text")),
     (("accept", "receive_text"), ("close",)),
+    (("accept", "receive_text"), ("receive_text",)),
+    (("accept", "receive_text", "receive_text"), ("receive_text", "receive_text")),
 ]
 
 
@@ -335,11 +341,16 @@ def run_concurrent(prefix, program, gate_receive=False):
     forwarded, outcomes = [], {}
     with Session() as s:
         async def receive():
+            if st.get("disconnect_returned"):
+                st["late_receives"] = st.get("late_receives", 0) + 1  # issued after a disconnect had been handed to the application
             k = st["pos"]
             st["pos"] += 1
             if gate_receive:
                 await s.env.gate(f"recv{k:02d}")
-            return dict(msgs[min(k, len(msgs) - 1)])
+            m = dict(msgs[min(k, len(msgs) - 1)])
+            if m["type"] == "websocket.disconnect":
+                st["disconnect_returned"] = True
+            return m
 
         async def send(message):
             forwarded.append(dict(message))
@@ -367,7 +378,7 @@ def run_concurrent(prefix, program, gate_receive=False):
             await asyncio.gather(*[job(i, ops) for i, ops in enumerate(program)])
         task = s.loop.create_task(main())
         x = s.drive(task, prefix)
-        x.obs = {"stuck": x.obs["stuck"], "trace": x.obs["trace"], "forwarded": forwarded, "outcomes": outcomes, "app_state": ws.application_state.value, "states": states}
+        x.obs = {"stuck": x.obs["stuck"], "trace": x.obs["trace"], "forwarded": forwarded, "outcomes": outcomes, "app_state": ws.application_state.value, "states": states, "late_receives": st.get("late_receives", 0)}
     return x
 
 
@@ -376,6 +387,8 @@ def judge_concurrent(o):
         return [f"STUCK ({o['stuck']}): calls never returned although the server completed every send; trace {o['trace'][-8:]}"]
     st, p = monitor(o["forwarded"])
     probs = ["forwarded sequence illegal: " + p + f" (forwarded {[m['type'] for m in o['forwarded']]})"] if p else []
+    if o.get("late_receives"):
+        probs.append(f"{o['late_receives']} receive() issued to the server after websocket.disconnect was delivered")
     for (c0, a0), (c1, a1) in zip(o["states"], o["states"][1:]):
         if c1 < c0 or a1 < a0:
             probs.append(f"state moved backwards: client {c0}->{c1}, application {a0}->{a1}")
@@ -535,7 +548,10 @@ def run_shard(desc, tier):
         w, results = build(frames, fault, hist)
         st, _ = monitor(w.forwarded)
         its = tuple(sorted((k, "done" if v == "done" else "open") for k, v in w.iters.items()))
-        return (w.ws.client_state.value, w.ws.application_state.value, w.pos, w.disconnect_delivered, st, len(w.forwarded), tuple(map(repr, w.returned)), its)
+        # every scalar attribute of the wrapper object is part of the state, not only the two documented ones: what the code
+        # keeps beside them (a close code, a flag) must not be merged away
+        hidden = tuple(sorted((k, repr(v)) for k, v in vars(w.ws).items() if isinstance(v, (int, str, bool, bytes, type(None))) or hasattr(v, "value")))
+        return (w.ws.client_state.value, w.ws.application_state.value, w.pos, w.disconnect_delivered, st, len(w.forwarded), tuple(map(repr, w.returned)), its, hidden)
 
     def on_state(hist, depth):
         w, _ = build(frames, fault, hist)
@@ -555,7 +571,7 @@ def run_shard(desc, tier):
 
 def classify(p):
     for key, name in (("succeeded although", "illegal-call-succeeded"), ("succeeded a second time", "illegal-call-succeeded"), ("application_state is", "state-after-close"), ("forwarded sequence illegal", "illegal-forwarded-sequence"), ("but forwarded", "raised-but-forwarded"), ("after websocket.disconnect", "receive-after-disconnect"),
-                      ("moved backwards", "state-backwards"), ("returned frames", "frames-order"), ("close events", "close-not-idempotent"), ("consumed", "frame-lost-or-wrong"), ("returned", "frame-lost-or-wrong")):
+                      ("moved backwards", "state-backwards"), ("close is idempotent", "close-not-idempotent"), ("returned frames", "frames-order"), ("close events", "close-not-idempotent"), ("consumed", "frame-lost-or-wrong"), ("returned", "frame-lost-or-wrong")):
         if key in p:
             return name
     return "other"
